@@ -450,18 +450,27 @@ func (in *Interp) stmt(s Stmt, e *env) *ctl {
 		case *ListV:
 			items = append(items, x.Elems...) // snapshot
 		case *RangeV:
-			if x.From > x.To {
-				return unspec("descending range")
-			}
-			hi := x.To
-			if x.Incl {
-				hi++
-			}
-			if hi-x.From > 100000 {
+			// a range runs from its start towards its end, upwards or downwards; the end is
+			// excluded unless the range is inclusive
+			if x.From-x.To > 100000 || x.To-x.From > 100000 {
 				return unspec("huge range")
 			}
-			for i := x.From; i < hi; i++ {
-				items = append(items, i)
+			if x.From <= x.To {
+				hi := x.To
+				if x.Incl {
+					hi++
+				}
+				for i := x.From; i < hi; i++ {
+					items = append(items, i)
+				}
+			} else {
+				lo := x.To
+				if x.Incl {
+					lo--
+				}
+				for i := x.From; i > lo; i-- {
+					items = append(items, i)
+				}
 			}
 		case string:
 			for _, r := range x {
